@@ -43,6 +43,23 @@ from hmc.core import Run
 LEVEL = "model_checking"
 
 
+def _freeze(v):
+    if isinstance(v, dict):
+        return tuple(sorted((repr(k), _freeze(x)) for k, x in v.items()))
+    if isinstance(v, (list, tuple)) or type(v).__name__ in ("deque",):
+        return tuple(_freeze(x) for x in v)
+    if isinstance(v, (set, frozenset)):
+        return tuple(sorted(repr(x) for x in v))
+    if isinstance(v, (int, float, str, bytes, bool, type(None))):
+        return v
+    return repr(v)
+
+
+def _tstate(t):
+    """Whole state of a tracker object, without naming its (private) fields: robust against internal renames."""
+    return tuple(sorted((k, _freeze(v)) for k, v in vars(t).items()))
+
+
 class World:
     def __init__(self, maxlen: int):
         self.t = InjectionTracker(0, maxlen=maxlen)
@@ -72,9 +89,7 @@ class Harness:
         return 1 if ev[0] in ("G", "O") else 0
 
     def canon(self, w: World):
-        t = w.t
-        return (tuple(t.injections), t._injection_base, t._packet_id_base, tuple(sorted(w.sent.items())),
-                tuple(w.injected), w.max_sent)
+        return (_tstate(w.t), tuple(sorted(w.sent.items())), tuple(w.injected), w.max_sent)
 
     def nontrivial(self, w: World, hist):
         # a lookup of an ID that has an injection *behind* it (later injection exists above its wire id)
@@ -83,7 +98,7 @@ class Harness:
         return None
 
     def observe(self, w: World):
-        return (tuple(w.t.injections), w.t._injection_base, tuple(sorted(w.sent.values())))
+        return (tuple(w.injected), tuple(sorted(w.sent.values())))
 
     # --- transitions -----------------------------------------------------------------------------
     def step(self, w: World, ev):
@@ -153,7 +168,7 @@ class Harness:
                 back = repr(e)
             if back != n:
                 bad("inverse", "InjectionTracker.get_original_id",
-                    f"injections={list(t.injections)} base={t._injection_base}: wire {f} belongs to id {n}, got {back}")
+                    f"injected so far {w.injected}: wire {f} belongs to id {n}, got {back}")
             if t.was_injected(f):
                 bad("was-injected", "InjectionTracker.was_injected", f"wire {f} (endpoint id {n}) reported as injected")
         for x in window:
@@ -217,9 +232,7 @@ class CircuitHarness:
         return 0 if ev in (("S", 0), ("I",)) else 1
 
     def canon(self, w: CWorld):
-        t, ti = w.c.out_injections, w.c.in_injections
-        return (tuple(t.injections), t._injection_base, t._packet_id_base, tuple(t.dropped),
-                tuple(ti.injections), ti._packet_id_base,
+        return (_tstate(w.c.out_injections), _tstate(w.c.in_injections),
                 tuple(sorted(w.sent.items())), tuple(w.injected), tuple(w.dropped), w.max_sent, tuple(sorted(w.oos)))
 
     def nontrivial(self, w: CWorld, hist):
